@@ -228,6 +228,8 @@ class rsync_timestamp_syncer(rsync_syncer):
                             doit = -delta > self.negative_sync_delay
             if not doit:
                 return True
+            # the timestamp fetch succeeding says nothing about the sync itself
+            ret = None
             ret = super()._sync(verbosity)
             # force a reset of the timestamp
             self.last_timestamp = self.current_timestamp()
